@@ -243,6 +243,21 @@ def check_function(case):
             raise Violation(d + 'call %d received %r, expected %r' % (k, got, want), enc(got), enc(want))
     if not same(r['result'], want_value):
         raise Violation(d + '-> %r, expected %r (the function\'s return value)' % (r['result'], want_value), enc(r['result']), enc(want_value))
+    # "the evaluated arguments", values of any Python type: what a variable holds arrives as the very object it is - an object the host compares by identity,
+    # one that cannot be copied (a lock), one that can be walked only once (a generator), alone and inside an array argument
+    import threading
+
+    class Account(object):
+        pass
+    objs = {'v_obj': Account(), 'v_lock': threading.Lock(), 'v_gen': (x for x in (1, 2))}
+    got = []
+    env2 = Env(vars=dict(objs, v_a=4), funcs={name: lambda *a: got.append(a) or 7})
+    for V in sorted(objs):
+        for text2, pick in (('%s(%s,v_a)' % (name, V), lambda a: a[0]), ('%s(1,{%s,2})' % (name, V), lambda a: a[1][0] if isinstance(a[1], list) and a[1] else None)):
+            del got[:]
+            r2 = env2.parse(text2)
+            if r2['error'] is not None or len(got) != 1 or len(got[0]) != 2 or pick(got[0]) is not objs[V]:
+                raise Violation('function %s registered; %s with %s = %s -> %r after %d calls; the function did not receive that very object' % (name, text2, V, type(objs[V]).__name__, r2['error'] or r2['result'], len(got)), None, None)
 
 
 def fn_classes(c):
@@ -550,7 +565,7 @@ LAWS = [
     Law('custom_function', check_function, strategy=fn_case(), classes=fn_classes, quick=3000, thorough=100000, shards=(8, 16),
         required=('shadows-builtin', 'dotted', 'shape:plus', 'shape:array', 'shape:nested', 'sites2', 'sites3'),
         nontrivial=lambda c: len(c['sites']) >= 2 or c['name'] in BUILTIN_SHADOW,
-        rule='a recording function under a FUNCTION-token name (incl. dotted names and names of built-ins) with 1-3 call sites whose arguments are generated trees: one invocation per call site in evaluation order, '
+        rule='a recording function under a FUNCTION-token name (incl. dotted names and names of built-ins) with 1-3 call sites whose arguments are generated trees: one invocation per call site in evaluation order, a host object / a lock / a generator held by a variable arrives as that very object (alone and inside an array argument), '
              'arguments equal to the reference values in order, the call\'s value is the return value (checked by F()+1, {F()}, F(F())), the built-in of the same name is not used'),
     Law('documented_builtins', check_documented, enumerate=enum_documented, exhaustive=True, shards=(4, 4), weight=lambda c: 4 if c[0] == 'name' else 1,
         rule='every name in the first section of SUPPORTED_FORMULAS.md: in the registry, NAME(), NAME(1), NAME(1,2), 1+NAME(1) never #NAME?; the announced count equals the number listed; TRUE, FALSE, NULL predefined'),
